@@ -56,6 +56,101 @@ func TestVerif_C26(t *testing.T) {
 			}
 		}
 	}
+	for _, slow := range []string{"listing", "per-entry"} {
+		for _, cache := range []bool{false, true} {
+			vfC26Slow(rec, slow, cache)
+		}
+	}
+}
+
+// vfC26Slow lists a directory whose backend is slower than the configured ReaddirTimeout (either
+// the directory read itself or every per-entry lstat sleeps). The server may answer such a request
+// with an error; what it may not do is answer NFS3_OK up to eof with entries missing. The sleeps
+// only create the situation - the verdict is the content of OK replies, not any duration.
+func vfC26Slow(rec *evid.Rec, slow string, cache bool) {
+	fs := refs.New()
+	fs.PlantDir("/d", 0755, 0, 0)
+	var names []string
+	for i := 0; i < 40; i++ {
+		nm := fmt.Sprintf("s%02d", i)
+		names = append(names, nm)
+		fs.PlantFile("/d/"+nm, []byte("x"), 0644, 0, 0)
+	}
+	srv, err := vfNewSrv(fs, ExportOptions{AttrCacheTimeout: 1, EnableDirCache: cache, Timeouts: &TimeoutConfig{ReaddirTimeout: 120 * time.Millisecond}})
+	if err != nil {
+		rec.Infra(err.Error())
+		return
+	}
+	defer srv.Close()
+	c := srv.client()
+	root, _ := c.mnt("/")
+	l, _ := c.lookup(root, "d")
+	if l == nil || l.Status != 0 {
+		rec.Infra("lookup d")
+		return
+	}
+	dh := vfFH(l.FH)
+	fs.SetHook(func(op *refs.Op, ph refs.Phase) error {
+		if ph != refs.Before {
+			return nil
+		}
+		switch {
+		case slow == "listing" && (op.Name == "File.Readdir" || op.Name == "ReadDir" || op.Name == "File.ReadDir" || op.Name == "File.Readdirnames"):
+			time.Sleep(300 * time.Millisecond)
+		case slow == "per-entry" && (op.Name == "Lstat" || op.Name == "Stat") && strings.HasPrefix(op.Path, "/d/"):
+			time.Sleep(12 * time.Millisecond)
+		}
+		return nil
+	})
+	defer fs.SetHook(nil)
+	for _, plus := range []bool{false, true} {
+		proc := "READDIR"
+		if plus {
+			proc = "READDIRPLUS"
+		}
+		for round := 0; round < 2; round++ { // the second walk may be served from the directory cache
+			var got []string
+			cookie := uint64(0)
+			outcome := "complete"
+			for calls := 0; calls < 50; calls++ {
+				rec.Eval(1)
+				var r *rfc.Res
+				var err error
+				if plus {
+					r, err = c.readdirplus(dh, cookie, 8192, 8192)
+				} else {
+					r, err = c.readdir(dh, cookie, 8192)
+				}
+				if err != nil || r == nil {
+					outcome = "no-reply"
+					break
+				}
+				if r.Status != 0 {
+					outcome = fmt.Sprintf("status=%d", r.Status)
+					break
+				}
+				for _, e := range r.Entries {
+					got = append(got, e.Name)
+					cookie = e.Cookie
+				}
+				if r.EOF {
+					break
+				}
+				if len(r.Entries) == 0 {
+					outcome = "stuck"
+					break
+				}
+			}
+			if outcome == "complete" {
+				sort.Strings(got)
+				if strings.Join(got, " ") != strings.Join(names, " ") {
+					rec.Violate("C26/"+proc+"/listing-differs-from-directory/slow-backend="+slow, fmt.Sprintf("ReaddirTimeout 120ms, backend slower (%s, dir cache %v): the walk answered NFS3_OK up to eof with %d of the directory's %d entries", slow, cache, len(got), len(names)), nil)
+					outcome = "incomplete"
+				}
+			}
+			rec.Distinct(fmt.Sprintf("%s|slow-backend=%s|cache=%v|round=%d|%s", proc, slow, cache, round, outcome))
+		}
+	}
 }
 
 func vfC26Dir(rec *evid.Rec, di, n int, nameKind string, cache bool) {
